@@ -573,7 +573,7 @@ def poly_oracle(q, r):
 def poly_stream(ctx, n):
     cases = [{'id': i, 'poly': gen_poly(ctx.rng)} for i in range(n)]
     res = run_impl(ctx, cases, tag='poly')
-    items, n_or = [], 0
+    items, items2, n_or = [], [], 0
     for c in cases:
         q, r = c['poly'], res[c['id']]
         if 'error' in r:
@@ -599,6 +599,17 @@ def poly_stream(ctx, n):
                                    if i in row0) + ']'
             conns = '[' + ';'.join(zl(x) for x in o['conn']) + ']'
             items.append(f'({c["id"]}%nat, pcheck {zl(q["nodes"]["ids"])} {zl(o["nodes"])} {conns} {pairs})')
+        # the whole cut in the model (PolyCut.cut_face, theorem C09_cut_with_element_ids_face)
+        if 'error' not in r and 'rows' in r:
+            inp = (f'{table_l(list(zip(q["nodes"]["ids"], q["nodes"]["rows"])))} {table_l(list(zip(q["eids"], q["conn"])))} '
+                   f'{table_l(list(zip(q["eids"], r["rows"])))} {zl(q["sel"])}')
+            if r.get('raised') is None:
+                o = r['result']
+                ob = (f'(Some ({table_l(list(zip(o["nodes"], o["xyz"])))}, {table_l(list(zip(o["eids"], o["conn"])))}, '
+                      f'{table_l(list(zip(o["face_ids"], o["face_rows"])))}))')
+            else:
+                ob = 'None'
+            items2.append(f'({c["id"]}%nat, pcut_check {inp} {ob})')
     bad = coq_check(ctx, 'CorrPoly', [], items) if items else {}
     if bad is None:
         ctx.violation('correspondence', {'file': 'CorrPoly'}, 'scratch files compile', 'coqc failed',
@@ -615,6 +626,22 @@ def poly_stream(ctx, n):
                       signature={'kind': 'correspondence', 'op': 'cut_with_element_ids', 'elements': 'polyhedron',
                                  'differs_in': ','.join(str(k) for k in codes)},
                       what='polyhedron cut: model and implementation differ')
+    bad2 = coq_check(ctx, 'CorrPolyCut', ['From FV.C09 Require Import PolyCut CorrPoly.'], items2) if items2 else {}
+    if bad2 is None:
+        ctx.violation('correspondence', {'file': 'CorrPolyCut'}, 'scratch files compile', 'coqc failed',
+                      'correspondence C09 (polyhedron stream, cut_face)', found_input=False,
+                      signature={'kind': 'corr-compile', 'stream': 'polyhedron-cut'})
+        bad2 = {}
+    PC2 = {1: 'implementation raises, model does not', 2: 'model raises, implementation does not', 3: 'nodes',
+           4: 'elements', 5: 'face variable'}
+    for cid, codes in sorted(bad2.items())[:4]:
+        ctx.violation('correspondence', {'poly': cases[cid]['poly']}, 'model (cut_face) and implementation return the same mesh '
+                      'and face variable', {'differs_in': [PC2.get(k, k) for k in codes], 'impl': res[cid]},
+                      'correspondence C09 (CorrPoly.pcut_check / C09_cut_with_element_ids_face)', found_input=True,
+                      signature={'kind': 'correspondence', 'op': 'cut_with_element_ids', 'elements': 'polyhedron',
+                                 'model': 'cut_face', 'differs_in': ','.join(str(k) for k in codes)},
+                      what='polyhedron cut: model cut_face and implementation differ')
+    ctx.notes['polyhedron_cut_face'] = {'compared_in_coq': len(items2), 'disagreements': len(bad2)}
     ctx.notes['polyhedron_stream'] = {'cases': len(cases), 'compared_in_coq': len(items), 'disagreements': len(bad),
                                       'oracle_failures': n_or}
     ctx.log(f'polyhedron stream: {len(cases)} cuts, {len(items)} compared in Coq, disagreements {len(bad)}, '
@@ -963,7 +990,7 @@ def main(ctx):
         ctx.notes['translator_error'] = str(e)
     proof_ok = False
     if tie_ok:
-        proof_ok, log = ctx.build_props('C09/Props.v', extra_targets=['C09/Corr.vo'],
+        proof_ok, log = ctx.build_props('C09/Props.v', extra_targets=['C09/Corr.vo', 'C09/CorrPoly.vo'],
                                         scan_dirs=[lib.COQ / 'C09'])
         if not proof_ok:
             ctx.notes['build_log_tail'] = log[-1500:]
@@ -975,7 +1002,7 @@ def main(ctx):
         for n in lib.theorem_names(lib.COQ / 'C09' / 'Props.v'):
             ctx.obligations.append({'name': n, 'discharged': False, 'assumptions': [],
                                     'note': 'translator failed closed'})
-        lib.coq_make(['C09/Corr.vo', 'C09/gen/MeshCfg.vo'])
+        lib.coq_make(['C09/Corr.vo', 'C09/CorrPoly.vo', 'C09/gen/MeshCfg.vo'])
     validate_first_order(ctx, fo_table)
 
     # cases: corpus, witnesses, generated
